@@ -330,8 +330,20 @@ def _isfinite(draw, og):
 def _isclose(draw, og):
     a, b = _pair(draw, og, kind="f")
     kw = {}
-    if draw(st.booleans()):
-        kw = {"rtol": draw(st.sampled_from([1e-5, 0.5, 0.0])), "atol": draw(st.sampled_from([1e-8, 0.25, 1.0]))}
+    if draw(st.integers(0, 2)) == 0:
+        # near pairs: b is a scaled element by element, and the tolerances sit between rtol*|a| and rtol*|b|
+        import copy
+        a = og.array(draw, shape=draw(st.sampled_from([(4,), (6,), (2, 3), (2, 2, 2)])), kind="f")
+        b = copy.deepcopy(a)
+        b["kind"] = "f"
+        for vals in ([b["values"]] if "values" in b else [t[1] for t in b["terms"]]):
+            for i, v in enumerate(vals):
+                vals[i] = v * draw(st.sampled_from([1, 1, 1.5, 2, 0.5, 1.25]))
+        kw = {"rtol": draw(st.sampled_from([0.5, 0.4, 0.25, 1e-5])), "atol": draw(st.sampled_from([0.0, 1e-8]))}
+    elif draw(st.integers(0, 3)):
+        # coarse relative tolerances make the test |a-b| <= atol + rtol*|b| visibly asymmetric in a and b
+        kw = {"rtol": draw(st.sampled_from([1e-5, 0.5, 0.5, 0.3, 0.0])),
+              "atol": draw(st.sampled_from([1e-8, 0.0, 0.25, 1.0]))}
     return {"args": [P(a), P(b)], "kw": kw}
 
 
@@ -437,6 +449,14 @@ def _det(draw, og):
     n = draw(st.sampled_from([1, 2, 2, 3, 3, 4]))
     stacked = draw(st.integers(0, 3)) == 0
     a = og.array(draw, shape=((2, n, n) if stacked else (n, n)))
+    if a.get("kind") == "i" and getattr(og, "mode", "") != "const" and draw(st.integers(0, 3)) == 0:
+        # integer entries too large for a double-precision determinant, small enough for int64 (exact) arithmetic
+        # (not for the constant-operand comparison with numpy.linalg.det, which is itself floating-point)
+        bound = {1: 2 ** 40, 2: 2 ** 30, 3: 2 ** 19, 4: 2 ** 13}[n]
+        size = (2 if stacked else 1) * n * n
+        big = draw(st.lists(st.integers(bound - 40, bound) | st.integers(-bound, bound), min_size=size, max_size=size))
+        zero = [0] * len(a["names"])
+        a["terms"] = [t for t in a["terms"] if list(t[0]) != zero] + [[zero, big]]
     return {"args": [P(a)], "kw": {}}
 
 
@@ -503,10 +523,13 @@ def _reshape(draw, og):
 
 @recipe("transpose", "shape", method="transpose")
 def _transpose(draw, og):
-    a = og.array(draw)
+    # (a permutation differs from its inverse only from three axes on: keep those frequent)
+    a = og.array(draw, min_ndim=3 if draw(st.integers(0, 2)) == 0 else 0)
     nd = ndim_of(a)
     kw = {}
-    if nd and draw(st.booleans()):
+    if nd >= 3 and draw(st.booleans()):
+        kw["axes"] = list(draw(st.sampled_from([(1, 2, 0), (2, 0, 1), (-2, -1, 0), (2, -3, 1)])))
+    elif nd and draw(st.booleans()):
         kw["axes"] = draw(st.permutations(list(range(nd))))
     return {"args": [P(a)], "kw": kw}
 
